@@ -389,8 +389,8 @@ impl Property for C12 {
 
     fn runs(tier: Tier) -> u64 {
         match tier {
-            Tier::Quick => 200_000,
-            Tier::Thorough => 20_000_000,
+            Tier::Quick => 300_000,
+            Tier::Thorough => 30_000_000,
         }
     }
 
